@@ -665,6 +665,43 @@ def c05m(prog, rep):
     rep.floor(R, "contextual keywords whose arm builds a construct (per kind, or in an arm shared by the Keyword and IdentifierOrKeyword forms)", n + shared, 2)
 
 
+CLASS_IN_A_TYPE_AFTER = {"Equal", "Packed", "Of"}
+
+
+def c05n(prog, rep):
+    """C05.n — "a member never drifts to another nesting level": inside a const / type / var section the keyword `class` ends the section
+    (`class var`, `class function` ..) unless it is part of a type: after `=` (`T = class`), after `packed`, and after `of`
+    (`array of class of T`, a class reference as element type).  The decision table of the section-ending predicate answers `false`
+    for `class` after each of these; with one missing, the declaration is cut in two and every later member of the section drops to
+    the outer level. [defect #39]"""
+    R = "C05.n"
+    b = prog.body("pasfmt_core::defaults::parser::declaration_section")
+    if not rep.check(b is not None, R, "anchor:declaration_section", "the section-ending predicate declaration_section was not found"):
+        return
+    try:
+        tb = Table(prog, b, inline=0)
+    except TooComplex as e:
+        rep.fail(R, "declaration_section:table", "declaration_section is not a loop-free decision any more: %s" % e)
+        return
+    exempt, ends = set(), 0
+    for cons, res in tb.rows:
+        cur_class = any(c[0] == "is" and str(c[1]).endswith("}.1@Some.0@Keyword.0") and c[2] == "Class" for c in cons) or \
+            any(c[0] == "is" and re.search(r"get_current_token_type\([^()]*\)@Some\.0@Keyword\.0$", str(c[1])) and c[2] == "Class" for c in cons)
+        if not cur_class:
+            continue
+        if render(res) == "False":
+            for c in cons:
+                if c[0] == "is" and (re.search(r"\}\.0@Some\.0@(Op|Keyword)\.0$", str(c[1])) or re.search(r"get_token_type\([^()]*\)@Some\.0@(Op|Keyword)\.0$", str(c[1]))):
+                    exempt.add(c[2])
+        elif render(res) == "True":
+            ends += 1
+    missing = sorted(CLASS_IN_A_TYPE_AFTER - exempt)
+    rep.check(not missing and ends >= 1, R, "class-inside-a-type-does-not-end-the-section",
+              "the section-ending predicate takes `class` after %s for the start of a `class var` / `class function` member although it is part of a type (`T = class`, `packed class`, "
+              "`array of class of T`): the declaration is cut in two and the members after it drop to the outer level" % (missing or "nothing (it never ends a section on `class`)"),
+              where="%s:%d" % (b.file, b.line), instance={"class_is_part_of_a_type_after": sorted(exempt), "paths_on_which_class_ends_the_section": ends})
+
+
 # adapters that answer "is there an element with property P" when P is their own predicate
 EXISTENTIAL_ADAPTERS = ("any", "find", "position", "rposition", "find_map", "filter")
 BODYLESS_DIRECTIVES = {"Forward", "External"}
@@ -766,6 +803,7 @@ def check_c05(prog, rep, tier, cfg):
     c05j(prog, rep)
     c05l(prog, rep)
     c05m(prog, rep)
+    c05n(prog, rep)
     # C05.k — "indented exactly one level deeper": what is written for a line start is `indentations` copies of the indentation string and
     # `continuations` copies of the continuation string, whatever the depth (shared with C08.a counter <-> string pairing and C10.c: the
     # width strings reach the output only through push / repeat, not through a cache that can be too short)
